@@ -4,8 +4,10 @@
    issued without the lock can be lost). [fixed = true] is the protocol of the current tree (timer goroutine takes
    Buffer.mutex before re-broadcasting); [fixed = false] is the protocol before commit 989b0cf. Statements only. *)
 From Coq Require Import List Bool Arith.
+From Coq Require Import ZArith.
 From BB.Model Require Import CleanerProto.
-From BB.Proofs Require CleanerProto.
+From BB.Model Require Cleaner Buffer.
+From BB.Proofs Require CleanerProto Buffer BufferClean.
 Import ListNotations.
 
 (* In every reachable state where nothing can move any more (timers included), no change is left unseen by the cleaner:
@@ -22,6 +24,13 @@ Theorem C04_terminates : forall cd n d pre,
 Proof. exact Proofs.CleanerProto.terminates. Qed.
 Print Assumptions C04_terminates.
 
+(* every schedule, however long, makes at most 19 n + 8 moves (the rest are stutters): the terminal state is not merely
+   reachable, it cannot be avoided for longer than that *)
+Theorem C04_every_schedule_bounded : forall cd n d sched,
+  moves true cd (init n d) sched <= 19 * n + 8.
+Proof. intros cd n d sched. rewrite <- (Proofs.CleanerProto.mu_init n d). apply Proofs.CleanerProto.moves_bounded. Qed.
+Print Assumptions C04_every_schedule_bounded.
+
 (* bounded delay, counted in timer firings: after the last external change at most two cooldown timers fire *)
 Theorem C04_bounded_timer_firings : forall cd n d pre post,
   let s := run true cd (init n d) pre in
@@ -36,3 +45,58 @@ Theorem C04_unlocked_rebroadcast_refuted :
   is_terminal false true s = true /\ dirty s = true.
 Proof. exact Proofs.CleanerProto.C04_unlocked_rebroadcast_refuted. Qed.
 Print Assumptions C04_unlocked_rebroadcast_refuted.
+
+(* ---- what that run of cleanupLogic does to the buffer (Model/Buffer.v; [dirty s = false] = cleanupLogic has run since the
+   last state change that broadcasts; schedules = every interleaving of operations, cleaner runs and shutdown steps) ------- *)
+Section BufferLevel.
+Import BB.Model.Buffer.
+Local Open Scope Z_scope.
+
+(* Default cleaner.  Whenever the cleaner has caught up, the buffer is open and at least one consumer is registered (open):
+   the base is the least committed offset of the registered consumers - the prefix every open consumer has committed past
+   is gone - and Size is the backlog of the slowest of them.  A consumer whose Close has completed is not registered any
+   more, so closing the slowest consumer releases its hold in the same way. *)
+Theorem C04_default_quiescent_size_is_slowest_backlog : forall evs,
+  let s := fst (erun (init CDefault) evs) in
+  dirty s = false -> bclosed s = false -> Proofs.BufferClean.regs s <> [] ->
+  base s = Proofs.BufferClean.min_commit s /\
+  size s = (length (log s) - Proofs.BufferClean.min_commit s)%nat.
+Proof. exact Proofs.BufferClean.default_quiescent_size_is_slowest_backlog. Qed.
+Print Assumptions C04_default_quiescent_size_is_slowest_backlog.
+
+(* one run of cleanupLogic does it, from any state the default cleaner can be in ... *)
+Theorem C04_default_clean_reclaims : forall s,
+  cfg s = CDefault -> bclosed s = false -> Proofs.Buffer.Inv s -> Proofs.Buffer.DInv s -> Proofs.BufferClean.regs s <> [] ->
+  base (clean s) = Proofs.BufferClean.min_commit s.
+Proof. exact Proofs.BufferClean.default_clean_reclaims. Qed.
+Print Assumptions C04_default_clean_reclaims.
+
+(* ... and is a fixpoint: that the cleaner cannot be woken by its own broadcast loses nothing *)
+Theorem C04_default_clean_idempotent : forall s,
+  cfg s = CDefault -> bclosed s = false -> Proofs.Buffer.Inv s -> Proofs.Buffer.DInv s -> Proofs.BufferClean.regs s <> [] ->
+  clean (clean s) = clean s.
+Proof. exact Proofs.BufferClean.default_clean_idempotent. Qed.
+Print Assumptions C04_default_clean_idempotent.
+
+(* FixedBufferCleaner(max, target) with target <= max: whenever the cleaner has caught up, the size is at most max.
+   (0 <= max: a size is never negative, and FixedBufferCleaner does not reject a negative max.) *)
+Theorem C04_fixed_quiescent_size_le_max : forall mx tg evs,
+  tg <= mx -> 0 <= mx ->
+  let s := fst (erun (init (CFixed mx tg)) evs) in
+  dirty s = false -> bclosed s = false -> Z.of_nat (size s) <= mx.
+Proof. exact Proofs.BufferClean.fixed_quiescent_size_le_max. Qed.
+Print Assumptions C04_fixed_quiescent_size_le_max.
+
+(* The first clause of the property does NOT hold under FixedBufferCleaner (finding F6): FixedBufferCleaner(2, 2), one
+   consumer, ten values put, read and committed; the cleaner has run, nothing is pending, and two values the only consumer
+   has committed past are still held - a second run of cleanupLogic would remove them, but nothing triggers it until the
+   next state change (the cleaner's own broadcast cannot wake itself, and one run is not a fixpoint of the fixed cleaner). *)
+Theorem C04_fixed_retains_consumed_refuted :
+  exists evs, let s := fst (erun (init (CFixed 2 2)) evs) in
+    dirty s = false /\ unsettled s = false /\ bclosed s = false /\
+    Proofs.BufferClean.regs s = [10%nat] /\ length (log s) = 10%nat /\ Proofs.BufferClean.min_commit s = 10%nat /\
+    base s = 8%nat /\ size s = 2%nat /\ snd (step s OSettled) = RInt 2 /\
+    base (clean s) = 10%nat.
+Proof. exact Proofs.BufferClean.fixed_retains_consumed_refuted. Qed.
+Print Assumptions C04_fixed_retains_consumed_refuted.
+End BufferLevel.
